@@ -278,14 +278,14 @@ func runC10(c *ev.Ctx) {
 	}
 	p3 := pathAlphabet(k)
 	pDeep := pathAlphabet(kDeep)
-	c.Rule(fmt.Sprintf("trees = every list/object-rooted tree with <= %d nodes, depth <= 3 over leaves {nil,1,\"s\"} and keys {a,b,0,1} (numeric-looking keys make a '.'/'#' mix-up visible), and every tree with <= 4 nodes over the multi-byte / multi-character keys {U+00E9, ab, 0} with the matching path alphabet; paths per tree = every resolvable path, every one-step corruption of each (segment dropped, sigil swapped, body emptied, index shifted to n/n+1/n+6/-1/non-numeric, key misspelt, leading sigil dropped, trailing sigil, segment appended) and all %d strings of <= %d segments over {.,#} x {a,b,0,1,2,10,x,empty} with and without the leading sigil; additionally all %d strings of <= %d segments on every tree with <= %d nodes. Oracle: harness tokenizer + step-by-step navigation with Get/KeyExists/Count only. Non-trivial = distinct (tree, path) pair whose path has >= 2 segments and resolves, or is a one-step corruption of a resolvable path.", nodes, len(p3), k, len(pDeep), kDeep, nodesDeep))
+	c.Rule(fmt.Sprintf("trees = every list/object-rooted tree with <= %d nodes, depth <= 3 over leaves {nil,1,\"s\"} and keys {a,b,0,1} (numeric-looking keys make a '.'/'#' mix-up visible), and every tree with <= 4 nodes over the multi-byte / multi-character / empty keys {U+00E9, ab, \"\"} with the matching path alphabet (a path cannot address the empty key: every path with an empty segment must stay Undefined); paths per tree = every resolvable path, every one-step corruption of each (segment dropped, sigil swapped, body emptied, index shifted to n/n+1/n+6/-1/non-numeric, key misspelt, leading sigil dropped, trailing sigil, segment appended) and all %d strings of <= %d segments over {.,#} x {a,b,0,1,2,10,x,empty} with and without the leading sigil; additionally all %d strings of <= %d segments on every tree with <= %d nodes. Oracle: harness tokenizer + step-by-step navigation with Get/KeyExists/Count only. Non-trivial = distinct (tree, path) pair whose path has >= 2 segments and resolves, or is a one-step corruption of a resolvable path.", nodes, len(p3), k, len(pDeep), kDeep, nodesDeep))
 	c.Assume("tree keys are free of '.' and '#'; index spellings with sign, leading zeros, hex or underscores are outside the path grammar of the statement and not generated (except -1 and non-numeric bodies, which must be Undefined)")
 	stop := func() bool { return c.Expired() || c.TooMany() }
 	en := spec.NewEnum(c10Leaves, c10Keys)
 	runOn := c10Run(c, stop)
-	en2 := spec.NewEnum(c10Leaves, []string{string(rune(0xE9)), "ab", "0"})
+	en2 := spec.NewEnum(c10Leaves, []string{string(rune(0xE9)), "ab", ""})
 	p2 := pathAlphabetOver(3, []string{string(rune(0xE9)), "ab", "0", "1", "a", ""})
-	runOn(en2, 4, p2, "multi-byte and multi-character keys {U+00E9, ab, 0}: all trees x (own paths + corruptions + all paths of <= 3 segments)", true)
+	runOn(en2, 4, p2, "multi-byte, multi-character and EMPTY keys {U+00E9, ab, \"\"}: all trees x (own paths + corruptions + all paths of <= 3 segments)", true)
 	runOn(en, nodes, p3, "all trees x (own paths + corruptions + all paths of <= 3 segments)", true)
 	runOn(en, nodesDeep, pDeep, "small trees x all paths of <= 4 segments", false)
 	if c.Expired() {
